@@ -35,6 +35,9 @@ _re_ident_or_num = re.compile(r'''(?x)
 ''')
 
 
+_re_bidi = re.compile('[\u202A-\u202E\u2066-\u2069]')
+
+
 def escape_string(s: str) -> str:
     # characters escaped according to
     # https://www.edgedb.com/docs/reference/edgeql/lexical#strings
@@ -49,6 +52,10 @@ def escape_string(s: str) -> str:
     result = result.replace('\n', '\\n')
     result = result.replace('\r', '\\r')
     result = result.replace('\t', '\\t')
+
+    # the lexer rejects bidirectional control characters unless escaped
+    result = _re_bidi.sub(
+        lambda m: '\\u{:04x}'.format(ord(m.group(0))), result)
 
     return result
 
